@@ -59,13 +59,23 @@ pub fn han_name_ends_with_copula_head(r: &R) -> bool {
 pub fn han_copula_ambiguity(f: &F, r: &R) -> bool {
     let copulas = f.copulas();
     r.any(&|n| {
-        if !n.tag.is_statement() || !n.kids[0].tag.is_atom() {
+        if !n.tag.is_statement() {
             return false;
         }
-        let Some(x) = n.kids[0].name.chars().last() else { return false };
         let Some(y) = crate::emit::copula(f, n.tag).chars().next() else { return false };
-        let xy: String = [x, y].iter().collect();
-        copulas.iter().any(|c| *c == xy)
+        // the operand that is printed first: the subject - or, for a symmetric statement, either operand
+        // (the order in which the operands of a symmetric statement are printed carries no meaning, so a
+        // formatter may print either one first)
+        let firsts: &[usize] = if n.tag.shape() == Shape::SymPair { &[0, 1] } else { &[0] };
+        firsts.iter().any(|&i| {
+            let k = &n.kids[i];
+            if !k.tag.is_atom() {
+                return false;
+            }
+            let Some(x) = k.name.chars().last() else { return false };
+            let xy: String = [x, y].iter().collect();
+            copulas.iter().any(|c| *c == xy)
+        })
     })
 }
 
